@@ -312,6 +312,11 @@ def _files_api(ctx, case, fcfg, texts, together):
             names.append(name)
             with open(os.path.join(d, "in", name), "w", encoding="utf-8") as f:
                 f.write("".join(t))
+        if case["lseed"] % 3 == 0:
+            # the output directory still holds (newer) files of an earlier run made with ANOTHER salt
+            nc.af.anonymize_files(os.path.join(d, "in"), os.path.join(d, "out"), False, True,
+                                  **dict(kw, salt=fcfg["salt"] + "-earlier", preserve_prefixes=None if pp is None else list(pp)))
+            ctx.count("runs_into_directory_of_an_earlier_run")
         nc.af.anonymize_files(os.path.join(d, "in"), os.path.join(d, "out"), False, True, **dict(kw, preserve_prefixes=None if pp is None else list(pp)))
         ctx.count("anonymize_files_directory_runs")
         for name, t in zip(names, texts):
